@@ -58,7 +58,11 @@ If you can find two quite different changes, deliver both (patch1.diff / patch2.
 * For in-process demonstrations you may add a Rust integration test or example *in your deliverable directory* as a
   tiny cargo crate with path dependencies on `{wt}/crates/...` (copy `{wt}/Cargo.lock` into it so it resolves offline),
   or put a `#[test]` in a new file under the worktree — but then it is part of the demo, not of patch.diff.
-* The machine is shared with other builds: use `-j 6` for cargo if things are slow, and do not leave processes running.
+* The machine is shared with other builds: ALWAYS pass `-j 4` to cargo (build and test), and do not leave processes running.
+* Known: the `els` integration-test target (`cargo test -p els --test test`, 17 tests) is timing-flaky when the machine is
+  loaded (completion tests assert `items.len() >= N`); if only those fail, re-run that target alone a few times before
+  concluding anything, and say what you saw.  The worktree is a checkout of the current development head (a few upstream
+  defects have already been fixed there), so judge "unchanged tree" by what this worktree does, not by upstream.
 * When you are done: make sure `patch.diff` is saved, then leave the worktree with your change **reverted**
   (`git checkout -- . && git status` clean apart from untracked build output); leave `target/` in place.
 
